@@ -36,7 +36,7 @@ class GenEv:
         return self.gen(f["hir"], env)
 
     def sym(self, e, env):
-        env2 = {k: v for k, v in env.items() if not isinstance(v, GenVal)}
+        env2 = {k: v for k, v in env.items() if not isinstance(v, GenVal) and v != "__out__"}
         return self.ev.sym(e, env2, {})
 
     def gen(self, e, env):
@@ -45,6 +45,7 @@ class GenEv:
         k = e["k"]
         if k == "block":
             env = dict(env)
+            pre = []
             for s in e["stmts"]:
                 if s["k"] == "item":
                     continue
@@ -62,16 +63,47 @@ class GenEv:
                                 self.ev.bind_pat(pat["pats"][1], ["genlen", marker], env)
                                 env["__gen__" + marker] = GenVal(g)
                                 continue
+                        if inner["k"] == "call" and self.is_out(inner["args"][-1] if inner["args"] else None, env) and s["pat"]["k"] == "bind":
+                            # let out = G(out)?;   -- one more serializer applied in sequence
+                            pre += self.gen(inner, env)
+                            env[s["pat"]["id"]] = "__out__"
+                            continue
                         return [["opaque", "let with ?"]]
                     self.ev.bind_pat(s["pat"], self.sym(init, env), env)
                     continue
                 return [["opaque", "statement in generator block"]]
             if e["expr"] is None:
                 return [["opaque", "block without tail"]]
-            return self.gen(e["expr"], env)
+            tail = self.gen(e["expr"], env)
+            return self.fuse(pre + tail, env) if pre else tail
         if k == "closure":
             # move |out| BODY
+            if e["params"] and e["params"][0]["k"] == "bind":
+                env = dict(env)
+                env[e["params"][0]["id"]] = "__out__"
             return self.gen(e["body"], env)
+        if k == "if":
+            c = strip(e["c"])
+            if c["k"] == "letexpr" and e.get("f") is not None:
+                # if let PAT = x { A } else { B }: a two-way switch on the variant
+                p = c["pat"]
+                while p["k"] in ("pref", "pderef"):
+                    p = p["pat"]
+                sc = self.sym(c["init"], env)
+                env2 = dict(env)
+                label = None
+                if p["k"] == "ptuplestruct":
+                    label = p["res"]["path"]
+                    for i, sp in enumerate(p["pats"]):
+                        self.ev.bind_pat(sp, ["payload", label, i], env2)
+                elif p["k"] == "pexpr" and p["e"]["k"] == "path":
+                    label = p["e"]["path"]
+                other = {"core::option::Option::Some": "core::option::Option::None", "core::option::Option::None": "core::option::Option::Some"}.get(label)
+                if label is not None and other is not None:
+                    return [["switch", sc, [[label, self.gen(e["t"], env2)], [other, self.gen(e["f"], env)]], None]]
+                if label is not None:
+                    return [["switch", sc, [[label, self.gen(e["t"], env2)]], self.gen(e["f"], env)]]
+            return [["opaque", "generator if"]]
         if k == "local":
             v = env.get(e["id"])
             if isinstance(v, GenVal):
@@ -107,6 +139,13 @@ class GenEv:
             f = strip(e["f"])
             fp = path_of(f)
             args = e["args"]
+            if f["k"] == "local" and isinstance(env.get(f["id"]), Closure):
+                # a function-valued parameter (e.g. the length writer handed to a generic helper) applied to its arguments
+                clo = env[f["id"]]
+                env2 = dict(clo.env)
+                for p, a in zip(clo.hir["params"], args):
+                    self.ev.bind_pat(p, self.sym(a, env), env2)
+                return self.gen(clo.hir["body"], env2)
             # applied form: G(out)
             if f["k"] != "path" or (fp and not fp.startswith(CF) and f.get("dk") not in ("Fn", "AssocFn") and not (f.get("dk") or "").startswith("Ctor")):
                 return self.gen(f, env)
@@ -152,6 +191,13 @@ class GenEv:
             a2 = strip_ref(a)
             ty = p.get("ty", "")
             is_gen = a2["k"] in ("call", "closure") and ("SerializeFn" in ty or ty in ("F", "&F") or len(ty) <= 2) or (a2["k"] == "local" and isinstance(env.get(a2["id"]), GenVal))
+            if a2["k"] == "closure" and a2["params"] and "WriteContext" not in a2["params"][0].get("ty", "") and p["k"] == "bind":
+                # a plain function of values (not a serializer): kept as a function
+                env2[p["id"]] = Closure(a2, dict(env), {})
+                continue
+            if a2["k"] == "local" and isinstance(env.get(a2["id"]), Closure) and p["k"] == "bind":
+                env2[p["id"]] = env[a2["id"]]
+                continue
             if is_gen:
                 self.ev.bind_pat(p, GenVal(self.gen(a, env)), env2) if p["k"] == "bind" else None
                 if p["k"] == "bind":
@@ -163,6 +209,12 @@ class GenEv:
             return self.gen(callee["hir"], env2)
         finally:
             self.depth -= 1
+
+    def is_out(self, a, env):
+        if a is None:
+            return False
+        a = strip(a)
+        return a.get("k") == "local" and (env.get(a["id"]) == "__out__" or "WriteContext" in a.get("ty", ""))
 
     def apply_fn(self, fexpr, arg, env):
         f = strip_ref(fexpr)
